@@ -74,6 +74,14 @@ def _apply_phase(rig, ph):
 
         rig.net.fates = once
         return
+    if ph in ("user-reset", "user-set-spa-info"):
+        # the network is healthy again and the user asks for a fresh start (the documented way out of a terminal error
+        # state such as ERROR_SPA_NOT_FOUND)
+        peer.set_mode("healthy")
+        man = rig.man
+        coro = man.async_reset() if ph == "user-reset" else man.async_set_spa_info(man._spa_address, man._spa_identifier, man._spa_name)
+        rig.spawn(coro, name="HARNESS:user-call")
+        return
     if ph == "healthy":
         peer.set_mode("healthy")
     elif ph == "blackout":
@@ -199,7 +207,8 @@ def _script_job(job):
     _apply_phase(rig, "healthy")
     why, obs = _finish(rig, rig.loop.time(), why, str(job))
     if why:
-        key = f"C09|script|{why[0]}|start={start_name}|first={phases[0][0]}"
+        user = [ph for ph, d in phases if ph.startswith("user-")]
+        key = f"C09|script{'+' + user[-1] if user else ''}|{why[0]}|start={start_name}|first={phases[0][0]}"
         return (key, f"script start={start_name} phases={phases}{' (yielding client handler)' if yielding else ''} then healthy: {why[1]}",
                 {"mode": "script", "start": start_name, "phases": [list(p) for p in phases], "yielding": yielding}), obs
     return None, obs
@@ -282,6 +291,13 @@ def run(ctx):
         for ph in ("lossy-ping", "lossy2", "lossy-verb"):
             for da in ((10.0, 30.0, 130.0) if not ctx.quick else (30.0,)):
                 scripts.append((sn, ((ph, da), ("blackout", 400.0))))
+    # the spa cannot be found (or the connection is otherwise stuck) while the network is bad; once it is healthy the user
+    # resets / re-enters the spa: from every start point, whatever state the outage left behind
+    for sn in STARTS:
+        for ph in ("blackout", "rferr", "lossy-verb", "refused"):
+            for d in ((30.0, 130.0, 400.0) if not ctx.quick else (30.0, 400.0)):
+                for call in ("user-reset", "user-set-spa-info"):
+                    scripts.append((sn, ((ph, d), (call, 1.0))))
     if not ctx.quick:
         triples = [((a, 30.0), (b, 130.0), (c, 30.0)) for a in PHASES for b in PHASES for c in PHASES if a != b and b != c]
         for s in triples:
